@@ -7,7 +7,7 @@ import random
 import time
 from enum import Enum
 from typing import TYPE_CHECKING
-from urllib.parse import unquote, urlsplit
+from urllib.parse import unquote_to_bytes, urlsplit
 
 from sdc11073 import network
 from sdc11073.definitions_sdc import SdcV1Definitions
@@ -78,8 +78,10 @@ def match_scope(my_scope: str, other_scope: str, match_by: MatchBy | str | None)
             return True
         src_path_elements = my_scope.path.split('/')
         target_path_elements = other_scope.path.split('/')
-        src_path_elements = [unquote(elem) for elem in src_path_elements]
-        target_path_elements = [unquote(elem) for elem in target_path_elements]
+        # compare the decoded octets: unquote() replaces every octet sequence that is not utf-8 by U+FFFD,
+        # so that different segments (e.g. latin-1 '%E4' and '%F6') would compare equal
+        src_path_elements = [unquote_to_bytes(elem) for elem in src_path_elements]
+        target_path_elements = [unquote_to_bytes(elem) for elem in target_path_elements]
         if len(src_path_elements) > len(target_path_elements):
             return False
         return all(target_path_elements[i] == elem for i, elem in enumerate(src_path_elements))
